@@ -6,3 +6,10 @@ CFG = {
         "assumptions": ["substitution scores, gap and clip penalties small enough that sums stay far from i32 overflow (|score| < 2^20)"],
     },
 }
+CFG["C02"] = {
+    "mechanisms": ["banded.tb_left_band", "banded.cell_budget", "partial_band_calls", "band_not_containing_origin",
+                   "band_not_containing_corner", "band_excluded_optimum", "full_band_calls", "sentinel_results"],
+    "thorough_passes": ["plain", "asan"],
+    "assumptions": ["backbones handed to the advanced entry points stay inside their documented contract (sorted true k-mer matches or subsets, valid chains)",
+                    "score magnitudes far from i32 overflow"],
+}
